@@ -219,9 +219,11 @@ example : ([Tree.node 7 [.leaf 3 2 1], .leaf 9 1 1] : List Tree).contains (.node
     same callees) and asserts exactly this at every `Enter`. Proved for every forest whose tokens are pairwise different (every parse:
     `C04_tiled_leaves_distinct`), every configuration, input, flags and fuel, from any non-skipping start state with an empty skip list — by
     mutual induction over trees and forests (`Lemmas/SkipChain.lean: tree_safe / forest_safe`), using `C04_arm_lists_children`, the frame of all
-    arms and `C04_subtrees_of_siblings_differ`. Hypotheses on the forest (`GoodNode`): no `` `include `` node whose arm would run (none present,
-    or `ignore_include`) — that arm deliberately lists the keyword inside the listed directive — and `` `define `` / usage / `__FILE__` nodes
-    carry a token. -/
+    arms and `C04_subtrees_of_siblings_differ`. An executed `` `include `` is covered too: its arm lists the directive AND the keyword inside it, on
+    purpose — leaving the keyword switches skipping off so that the blanks after the file name are emitted — and `skip_forest_safe` /
+    `safe_include_rest` follow exactly that. Hypotheses on the forest (`GoodNode`, true of parse trees and executed by the driver on every
+    parseable file of the C04 oracle: `good_of_checks`): `` `define `` / usage / `__FILE__` / executed `` `include `` nodes carry a token, and an
+    executed `` `include `` node has exactly one child (it is an enum node). -/
 theorem C04_dead_subtrees_reached_clean (C : Cfg) (inp : Input) (s path : Bytes) (ii sc : Bool) (rd id : Nat)
     (ts : List Tree) (hnd : (leavesL ts).Nodup) (hgood : ∀ d ∈ preL ts, GoodNode C ii d)
     (w0 : WState) (h0 : w0.skip = false) (he : w0.skipNodes = []) (fuel : Nat) :
